@@ -394,6 +394,47 @@ pub fn run_case(prop: &str, sub: u64, histories: usize, scratch: &Path, acc: &mu
             }
         }
     }
+    // a file whose size on disk says more than what reaches the searcher (UTF-16 behind its
+    // mark: half of it; UTF-8 behind its mark: three bytes less), searched with the multi-line
+    // strategy proper under a heap limit that the delivered text fits into
+    if prop == "C02" && rng.chance(1, 60) {
+        let mut text: Vec<u8> = vec![];
+        for _ in 0..20 + rng.below(200) {
+            let l = gen_line(&mut rng);
+            if l.is_ascii() {
+                text.extend_from_slice(&l);
+                text.push(b'\n');
+            }
+        }
+        text.extend_from_slice(b"foo\nbar\nx\n");
+        let wide = rng.chance(2, 3);
+        let data: Vec<u8> = if wide {
+            let mut d = vec![0xFF, 0xFE];
+            for &b in &text {
+                d.extend_from_slice(&[b, 0]);
+            }
+            d
+        } else {
+            [&b"\xEF\xBB\xBF"[..], &text[..]].concat()
+        };
+        let c2 = Case {
+            data,
+            pattern: ML_PATTERNS[rng.below(ML_PATTERNS.len())].to_string(),
+            cfg: Cfg { term: Term::Lf, multi_line: true, stop_nm: false, passthru: false, invert: false, a: case.cfg.a.min(1), b: case.cfg.b.min(1), encoding: None, ..case.cfg.clone() },
+        };
+        if build_matcher(&c2).is_ok() {
+            let r2 = run(&c2, &k0, &Strategy::Slice, None, None);
+            let m2 = model(&Case { data: text.clone(), ..c2.clone() });
+            let lim = Knobs { heap_limit: Some(text.len() + 16 + rng.below(if wide { text.len() } else { 3 }.max(1))), ..k0 };
+            for st in [Strategy::Path { mmap: false }, Strategy::File { mmap: false }, Strategy::Reader(gen_history(&mut rng))] {
+                let o = run(&c2, &lim, &st, None, Some(scratch));
+                acc.evals += 1;
+                acc.faults.inc("heap-limit-between-delivered-size-and-file-size(multi-line)");
+                let vs = judge(&c2, &lim, &st, &r2, &m2, &o);
+                report(acc, &c2, &lim, &st, "marked-file-under-heap-limit", &o, vs);
+            }
+        }
+    }
     // special files: size 0 but content (procfs); a memory map is impossible
     // there and the searcher must fall back to reading
     if rng.chance(1, 300) {
